@@ -28,6 +28,9 @@ CHECKS = {
  "C08": ("model_checking", "E1", "explicit-state search (stateright BFS) over content-line sequences against a reference matcher",
          "every sequence of ≤4 (thorough ≤5) lines over a 12-line alphabet of matching, non-matching, indented, blank, whitespace-only, partially matching and multi-byte lines × 5 anchored/unanchored patterns",
          "regex crate trusted; bounded scope", "§2 C06–C09"),
+ "C10": ("model_checking", "E1", "exhaustive enumeration (explicit-state grid) of comment layouts × rule kinds; reported range compared with the constructed position of key / tag",
+         "full product of 8 host comment forms × 0..2 comment lines before and after the tag × multi-line tag × content on the tag's line × 3 indentations × multi-byte text × 8 rule kinds (sorted, sorted by regex group, unique, unique by regex group, pattern; line-count, check-lua, affects) × offending line 1..3 (12.6k applicable cases): the range must delimit exactly the offending key, or the start tag from `<` to `>`",
+         "check-ai's range shares check-lua's code path and is exercised in C19", "§2 C10"),
  "C12": ("model_checking", "E1", "explicit-state search (stateright) over well-nested kit files; in every state every single-tag damage is applied and the real code must fail naming the file",
          "for each grammar (all 39 suffixes) every well-nested file of ≤2 (thorough ≤3) kit segments × every tag × {deleted, duplicated, lost with its comment} × {alone, first, last, between healthy files} × {scan, list, diff, diff+glob}: the run must fail at parsing with an error naming the damaged file",
          "the all-lines-added diff emitter is validated against real git before the search; bounded scope", "§2 C12"),
